@@ -6,7 +6,7 @@ prove  coq/Props/C14.v (formula clauses over R for all draws / energies; tree cl
        add_children sequences).
 corr   (a) generated definitions run as OCaml floats vs the implementation under scripted
            numpy.random (model variates = implementation variates);
-       (b) hand model of _choose_secondary_fractions vs the implementation (scripted rand+poisson);
+       (b) the generated _choose_secondary_fractions vs the implementation (scripted rand+poisson streams);
        (c) hand model of Event vs the real Event class on random histories (vm_compute, exact).
 probe  the property itself on the implementation (real draws, extreme draws, sum rules,
        monotonicity, lengths, tree consistency with an independent reference tree).
@@ -26,7 +26,7 @@ from harness.common import REPO, ROOT
 sys.path.insert(0, os.path.join(ROOT, "tools"))
 
 PIN_FILE = os.path.join(ROOT, "harness", "pins", "C14.json")
-PINNED = ["GQRSInteraction._choose_secondary_fractions", "Event.__init__", "Event.add_children",
+PINNED = ["Event.__init__", "Event.add_children",
           "Event.get_children", "Event.get_parent", "Event.get_from_level", "Event.__iter__", "Event.__len__"]
 PIDS = {"nu_e": 12, "nu_e_bar": -12, "nu_mu": 14, "nu_mu_bar": -14, "nu_tau": 16, "nu_tau_bar": -16}
 MODELS = {"GQRS": "GQRSInteraction", "CTW": "CTWInteraction"}
@@ -178,17 +178,17 @@ let sec_of tbl = fun it le ei ->
 '''
 
 
-def rows_prelude(pp):
-    """OCaml definitions rows0..rows6 : the secondary tables of the implementation."""
-    out = []
-    for ei in range(7):
-        fields = []
-        for f, arr in (("mu_brems", pp._y_cum_muon_brems), ("mu_epair", pp._y_cum_muon_epair), ("mu_pn", pp._y_cum_muon_pn),
-                       ("tau_brems", pp._y_cum_tauon_brems), ("tau_epair", pp._y_cum_tauon_epair), ("tau_pn", pp._y_cum_tauon_pn),
-                       ("tau_hadrdecay", pp._y_cum_tauon_hadrdecay), ("tau_mudecay", pp._y_cum_tauon_mudecay),
-                       ("tau_edecay", pp._y_cum_tauon_edecay)):
-            fields.append("M.%s=%s" % (f, oclist([float(v) for v in arr[ei]])))
-        out.append("let rows%d = {%s}" % (ei, "; ".join(fields)))
+def tabs_prelude(pp):
+    """OCaml definition `tabs` : the SecTables record filled with the implementation's module-level tables."""
+    out, fields = [], []
+    for nm in sorted(vars(pp)):
+        if nm.startswith("_int_"):
+            out.append("let a%s = [|%s|]" % (nm, "; ".join(rx.ocf(float(v)) for v in getattr(pp, nm))))
+            fields.append("M.tab%s = (fun z -> a%s.(zint z))" % (nm, nm))
+        elif nm.startswith("_y_cum_"):
+            out.append("let a%s = [|%s|]" % (nm, "; ".join(oclist([float(v) for v in row]) for row in getattr(pp, nm))))
+            fields.append("M.tab%s = (fun z -> a%s.(zint z))" % (nm, nm))
+    out.append("let tabs = {%s}" % "; ".join(fields))
     return "\n".join(out) + "\n"
 
 
@@ -332,18 +332,19 @@ def corr_formulas(ctx, pp, escalate):
             ctx.fail("sec-crash:%s:%d:%r:%r" % (pidname, ei, nsd, us[:4]), "_choose_secondary_fractions raised %r" % (e,),
                      {"kind": "secondary", "pid": pidname, "ei": ei, "le": le, "ns": nsd, "us": us})
             continue
-        cases.append("pr2 (M.secondary_fractions rows%d %s %s %s %s)" % (ei, ocz(pid), rx.ocf(le), oclist(nsd, ocz), oclist(us)))
+        cases.append("pr2 (M.gQRS_choose_secondary_fractions %s tabs %s %s %s %s)" % (
+            mk_inter(1, pid, 1e9, 0.0, True), rx.ocf(le), ocz(ei), oclist(nsd, ocz), oclist(us)))
         meta = {"pid": pidname, "energy_index": ei, "lepton_energy": le, "ns": nsd, "us": us[:10], "consumed": s.iu}
         checks.append(("secondary_fractions", ("sec", pidname, ei, le, tuple(nsd), tuple(us)), meta, (float(em), float(had)), 1e-12, 0))
     fns = []
     for m in MODELS:
         fns += ["%s_%s" % (m, f) for f in ("choose_interaction", "choose_inelasticity", "cross_section", "total_cross_section",
                                            "interaction_length", "total_interaction_length", "choose_shower_fractions")]
-    fns += ["secondary_fractions", "mkInter", "mkRows"]
+    fns += ["GQRS_choose_secondary_fractions", "mkInter", "mkSecTables"]
     old = rx.OCAML_PRELUDE
-    rx.OCAML_PRELUDE = old + OCAML_EXTRA + rows_prelude(pp)
+    rx.OCAML_PRELUDE = old + OCAML_EXTRA + tabs_prelude(pp)
     try:
-        res = rx.run(ctx, "From PyrexGen Require Import Gen_particle.\nFrom PyrexModel Require Import Secondaries.", fns, cases, name="particle")
+        res = rx.run(ctx, "From PyrexGen Require Import Gen_particle.", fns, cases, name="particle")
     finally:
         rx.OCAML_PRELUDE = old
     bad = {}
@@ -697,7 +698,7 @@ def probes(ctx, pp, heavy):
         for pidname in PIDS:
             for kind in ("cc", "nc", None):
                 for secondaries in (True, False):
-                    for energy in (1e3, 1e6, 3.3e7, 1e9, 1e12):
+                    for energy in ((1e3, 1e6, 3.3e7, 1e9, 1e12) if ctx.thorough else (1e3, 3.3e7, 1e12)):
                         for u0 in ext:
                             for u1 in ext:
                                 us = [u0, u1, rng.choice(ext)] + [rng.choice(ext + [rng.random()]) for _ in range(60)]
@@ -863,7 +864,7 @@ def run(ctx):
     ctx.trusted += ["Coq 8.16.1 kernel; Coquelicot (is_derive)",
                     "tools/py2coq.py + tools/gen_particle.py (translator: meaning of the NumPy whitelist, raise -> option, retry loop -> retry_loop, enum values read from the class bodies)",
                     "harness/realextract.py extraction directives (R -> OCaml float), used for the correspondence only",
-                    "Model/Secondaries.v and Model/EventTree.v are hand-written: pinned by AST hash, validated by correspondence"]
+                    "Model/EventTree.v is hand-written: pinned by AST hash, validated by exact correspondence"]
     ctx.assumptions += ["theorems are over the real numbers; binary64 rounding is covered by the numeric correspondence and the probes only",
                         "numpy.random.rand() returns values in [0,1); numpy.random.poisson returns non-negative integers (opaque draws)",
                         "1000 consecutive rejected secondary draws make choose_shower_fractions return None (Interaction.__init__ then raises TypeError): "
@@ -875,7 +876,7 @@ def run(ctx):
     recorded = json.load(open(PIN_FILE)) if os.path.exists(PIN_FILE) else {}
     changed = [k for k in pins if recorded.get(k) != pins[k]]
     ctx.extra["pins"] = {"current": pins, "changed_since_validation": changed}
-    esc_sec = any("secondary" in k for k in changed)
+    esc_sec = False
     esc_tree = any(k.startswith("Event.") for k in changed)
     gen_ok = True
     try:
